@@ -44,6 +44,9 @@ func borrowHeader() *storage.Header {
 	default:
 		hdr := new(storage.Header)
 		runtime.SetFinalizer(hdr, destroyHeader)
+		if verifEnabled {
+			verifFinalizer(hdr)
+		}
 		return hdr
 	}
 }
